@@ -81,6 +81,72 @@ SEEDS = {
            "the deleted queue is empty and its delete runs a real GC, which depends entirely on calls addressed to other queues; then restart"),
 }
 
+# ---- second round (agents were told the first-round changes and asked for different root causes)
+SEEDS.update({
+ "C02-4": ("the GC guard `_file_number` is taken AFTER record_empty_queues_position instead of before",
+           "all queues empty, >= 2 files, GC position entries crossing a file boundary (cursor near the file end or 40 KB queue names), then crash or restart"),
+ "C03-3": ("Directory::gc collects the unused files first and unlinks them newest-first",
+           "one GC pass removing >= 2 files, a DeleteQueue entry living only in the middle file, a crash exactly between the two unlinks"),
+ "C03-4": ("persist(FlushAndFsync) no longer fsyncs the directory; sync added after creating wal-0 and after GC unlinks (roll-over syncs BEFORE creating the next file)",
+           "power loss after a roll-over and an fsync-level persist, before the next roll-over or GC: the new file's directory entry is not durable"),
+ "C04-3": ("RecordReader::go_next clears the record buffer at the top of the call instead of at First/Full frames",
+           "a record spanning a block boundary torn between its frames by a kill, recovery, an append, a second restart: that append is lost and its position handed out again"),
+ "C04-4": ("both the fsync in record_empty_queues_position and the persist before gc() are removed (each looks redundant given the other)",
+           "an empty idle queue whose last mention is in files a GC pass removes, and a kill between that pass's unlinks and the next flush"),
+ "C05-3": ("retry detection compares with last_record() instead of next_position",
+           "append, truncate through the last position, then append with an explicit position equal to the last position: Err(Past) instead of the no-op"),
+ "C05-4": ("summary().end taken from the last retained record instead of last_position()",
+           "a fully truncated queue, then summary()"),
+ "C06-3": ("open_with_prefs takes `file_number` once before the replay loop: every replayed record is attributed to the first WAL file",
+           ">= 2 WAL files at a clean restart, re-open, then a truncate/delete moving the oldest retained record past a file boundary while a pre-restart record is retained"),
+ "C06-4": ("run_gc_if_necessary deletes files only when the persist policy says a persist is due",
+           "open_with_prefs with DoNothing / OnDelay, roll-over, a call that frees the oldest file"),
+ "C07-3": ("record buffer cleared at the top of go_next, guarded by !within_record",
+           "a multi-block entry torn by a kill (First/Middle on disk, Last missing), restart, an append, restart: the first entry after the crash reads back as garbage"),
+ "C07-4": ("the GC guard `_file_number` is removed (same mechanism as C01-1, different wording)",
+           "GC with an empty queue while the cursor is within a position entry's length of a file end, then a clean restart"),
+ "C08-3": ("the frame CRC no longer covers the frame type byte",
+           "a record spanning >= 2 frames whose continuation frame starts with the byte image of an entry (crafted payload), and the frame type byte overwritten with another valid type"),
+ "C09-3": ("record buffer cleared only when idle AND the error arms no longer reset within_record (two sites)",
+           "an entry straddling a block boundary, damage on its non-first frame, and a following entry: that untouched entry is lost too"),
+ "C09-4": ("the within_record flag is removed as redundant",
+           "a multi-frame batch whose first k records end exactly on the last byte of a block, preceded by an append, damage on the batch's First frame: open fails with Corruption"),
+ "C10-3": ("FileTracker::next computes curr + 1 before the range lookup",
+           "a WAL file named wal-18446744073709551615 that replay reads to its last block: panic (overflow) or endless loop"),
+ "C10-4": ("read_block uses a hand-written fill loop that only recognises EOF when nothing was read",
+           "a non-newest WAL file whose length is not a multiple of 32 KiB (cut inside a block): open never returns"),
+ "C11-3": ("when skipping a block declared corrupted, the next block is loaded with next_block().unwrap_or(false)",
+           "a WAL image with block-level damage (invalid frame type / over-long length) AND an I/O error at exactly the block read that skips it"),
+ "C11-4": ("block reads are retried without bound on ErrorKind::Interrupted",
+           "an error of kind Interrupted at a non-first block read: persistent = open never returns, transient = silently retried"),
+ "C12-3": ("the frame CRC no longer covers the frame type byte",
+           "type byte of a batch frame damaged First->Full or Middle->Last where the frame ends on an item boundary: the batch is recovered without its tail"),
+ "C12-4": ("batches larger than half a WAL file are written as several AppendRecords entries",
+           "a batch > 64 KiB and a crash between two of its entries, or damage of one of its frames"),
+ "C13-3": ("append_records runs the file GC before validating the call",
+           "a pending-GC state (first file unreferenced, roll-over caused by a create_queue with a long name) and then any rejected / no-op append"),
+ "C13-4": ("the empty-batch no-op is decided from the iterator's size_hint upper bound",
+           "an empty batch passed as an iterator with an inexact size hint (e.g. a filter that drops everything)"),
+ "C14-3": ("persist(FlushAndFsync) eagerly rolls over to the next WAL file when the current one is exactly full",
+           "a record ending exactly on the last byte of a WAL file under a policy that fsyncs at that moment vs. one that does not"),
+ "C15-3": ("create_queue runs the GC but drops the byte count it returns",
+           "a pending-GC state at create_queue time (its own entry rolls the file over while every queue is empty)"),
+ "C15-4": ("truncate returns wal_bytes_written 0 on a fast path taken AFTER its entry was written, when nothing was evicted",
+           "any truncate that evicts nothing"),
+ "C16-3": ("truncate strictly beyond the last record clears the record metas but not the payload buffer",
+           "a truncate at a position greater than the last position of a non-empty queue"),
+ "C16-4": ("truncate_head fast path keyed on byte offset 0 instead of record index 0",
+           "zero-length records at the head of a queue evicted by a partial truncation"),
+ "C17-3": ("create_file uses create(true).truncate(true) instead of create_new(true)",
+           "a foreign symlink named exactly like the next file the writer rolls over to"),
+ "C17-4": ("FileTracker::next / inc look up number + 1 instead of the next tracked number",
+           "non-consecutive WAL numbers at open time (gaps)"),
+ "C18-3": ("delete_queue persists and calls directory().gc() directly, skipping record_empty_queues_position",
+           "an idle empty queue whose latest position entry sits in the oldest file, that file released by a delete_queue on ANOTHER queue, restart"),
+ "C18-4": ("within_record replaced by an inverted drop_record flag with the wrong initial state: orphan Middle/Last frames at the start of the WAL are delivered",
+           "a record of queue b straddling a file boundary whose tail is a well-formed entry for another queue (crafted payload), the first file GC'ed, restart"),
+})
+
 def parse_matrix(name):
     path = f"/tmp/seedmatrix_final/{name}.log"
     if not os.path.exists(path):
